@@ -95,18 +95,20 @@ type SymConfig struct {
 	Prog         *Program
 	MaxDepth     int
 	MaxPaths     int
-	Collapse     bool                               // collapse effect-free diamonds (logging)
-	CollapsePure bool                               // also collapse effect-free diamonds that only compute values (join phis become opaque)
-	NoInline     map[*ssa.Function]bool             // never inline these
-	OnlyInline   map[*ssa.Function]bool             // if non-nil, inline only these
-	KeepDiamonds map[*ssa.BasicBlock]bool           // CollapsePure: value-only diamonds branching at these blocks stay as separate paths
-	MaxVisits    int                                // how often a block may be entered on one path (0 = 2: loops unrolled once)
-	Start        *ssa.BasicBlock                    // region entry (nil = function entry)
-	Stop         map[*ssa.BasicBlock]bool           // region exits
-	KeepCalls    bool                               // record inert (logging) calls as effects too
-	ParamTerms   map[*ssa.Parameter]*Term           // override root parameter terms
-	FreeTerms    map[*ssa.FreeVar]*Term             // override root free variable terms
-	OnBlock      func(b *ssa.BasicBlock, depth int) // coverage hook
+	Collapse     bool                     // collapse effect-free diamonds (logging)
+	CollapsePure bool                     // also collapse effect-free diamonds that only compute values (join phis become opaque)
+	NoInline     map[*ssa.Function]bool   // never inline these
+	OnlyInline   map[*ssa.Function]bool   // if non-nil, inline only these
+	KeepDiamonds map[*ssa.BasicBlock]bool // CollapsePure: value-only diamonds branching at these blocks stay as separate paths
+	MaxVisits    int                      // how often a block may be entered on one path (0 = 2: loops unrolled once)
+	Start        *ssa.BasicBlock          // region entry (nil = function entry)
+	Stop         map[*ssa.BasicBlock]bool // region exits
+	KeepCalls    bool                     // record inert (logging) calls as effects too
+	ParamTerms   map[*ssa.Parameter]*Term // override root parameter terms
+	// CallHook may supply the result of a call (a constant under a valuation); nil result: no override
+	CallHook  func(callee *ssa.Function, args []*Term, load func(addr *Term, typ types.Type) *Term) *Term
+	FreeTerms map[*ssa.FreeVar]*Term             // override root free variable terms
+	OnBlock   func(b *ssa.BasicBlock, depth int) // coverage hook
 }
 
 type deferred struct {
@@ -128,11 +130,18 @@ type frame struct {
 	uid    int
 }
 
+type ival struct {
+	lo, hi             constant.Value
+	loStrict, hiStrict bool
+}
+
 type state struct {
 	frames   []*frame
 	mem      map[string]*Term
 	memAddr  map[string]*Term
 	fresh    map[string]bool // allocations made on this path (zero-initialised)
+	dirty    map[string]bool // local variables written through a computed index
+	rng      map[string]ival // per term: interval implied by the ordered comparisons with constants taken so far
 	fepoch   map[types.Object]int
 	havoc    int
 	mepoch   map[string]int
@@ -172,6 +181,18 @@ func (s *state) clone() *state {
 	n.fresh = make(map[string]bool, len(s.fresh))
 	for k, v := range s.fresh {
 		n.fresh[k] = v
+	}
+	if len(s.rng) > 0 {
+		n.rng = make(map[string]ival, len(s.rng))
+		for k, v := range s.rng {
+			n.rng[k] = v
+		}
+	}
+	if len(s.dirty) > 0 {
+		n.dirty = make(map[string]bool, len(s.dirty))
+		for k, v := range s.dirty {
+			n.dirty[k] = v
+		}
 	}
 	n.fepoch = make(map[types.Object]int, len(s.fepoch))
 	for k, v := range s.fepoch {
@@ -513,6 +534,42 @@ func (s *state) assume(cond *Term, taken bool) bool {
 		return v == taken
 	}
 	s.truth[key] = taken
+	// ordered comparison of one term with a constant: the interval of that term on this path must stay non-empty
+	// (value <= -0.5 and value >= 0.5 cannot both hold); plain interval bookkeeping, no solver
+	if c.Op == "binop" && (c.Aux == "<" || c.Aux == "<=" || c.Aux == ">" || c.Aux == ">=") {
+		x, y, op := c.Args[0], c.Args[1], c.Aux
+		if _, ok := x.IsConst(); ok {
+			x, y = y, x
+			op = map[string]string{"<": ">", "<=": ">=", ">": "<", ">=": "<="}[op]
+		}
+		if k, ok := y.IsConst(); ok && k != nil && (k.Kind() == constant.Int || k.Kind() == constant.Float) {
+			if _, xConst := x.IsConst(); !xConst {
+				if !taken {
+					op = map[string]string{"<": ">=", "<=": ">", ">": "<=", ">=": "<"}[op]
+				}
+				if s.rng == nil {
+					s.rng = map[string]ival{}
+				}
+				iv := s.rng[x.String()]
+				switch op {
+				case "<", "<=":
+					if iv.hi == nil || constant.Compare(k, token.LSS, iv.hi) || constant.Compare(k, token.EQL, iv.hi) && op == "<" {
+						iv.hi, iv.hiStrict = k, op == "<"
+					}
+				case ">", ">=":
+					if iv.lo == nil || constant.Compare(k, token.GTR, iv.lo) || constant.Compare(k, token.EQL, iv.lo) && op == ">" {
+						iv.lo, iv.loStrict = k, op == ">"
+					}
+				}
+				s.rng[x.String()] = iv
+				if iv.lo != nil && iv.hi != nil {
+					if constant.Compare(iv.lo, token.GTR, iv.hi) || constant.Compare(iv.lo, token.EQL, iv.hi) && (iv.loStrict || iv.hiStrict) {
+						return false
+					}
+				}
+			}
+		}
+	}
 	if c.Op == "binop" && (c.Aux == "==" || c.Aux == "!=") {
 		x, y := c.Args[0], c.Args[1]
 		if _, ok := x.IsConst(); ok {
@@ -582,6 +639,28 @@ func distinctLocalPaths(a, b *Term) bool {
 
 func (s *state) store(addr, v *Term) {
 	key := addr.String()
+	// a store through a computed index: nothing is known about the untouched elements of that variable any more
+	for t := addr; ; {
+		if t.Op == "fieldaddr" {
+			t = t.Args[0]
+			continue
+		}
+		if t.Op == "indexaddr" {
+			if _, isConst := t.Args[1].IsConst(); !isConst {
+				r := t.Args[0]
+				for r.Op == "fieldaddr" || r.Op == "indexaddr" {
+					r = r.Args[0]
+				}
+				if s.dirty == nil {
+					s.dirty = map[string]bool{}
+				}
+				s.dirty[r.String()] = true
+			}
+			t = t.Args[0]
+			continue
+		}
+		break
+	}
 	// kill entries that extend this address, and may-alias entries (same last field, other base)
 	lf := lastField(addr)
 	for k, a := range s.memAddr {
@@ -685,7 +764,7 @@ func (s *state) load(addr *Term, typ types.Type) *Term {
 				break
 			}
 		}
-		if (has || s.fresh[key]) && u.Len() <= 16 {
+		if (has || s.fresh[key]) && u.Len() <= 256 {
 			t := &Term{Op: "array", Type: typ}
 			for i := int64(0); i < u.Len(); i++ {
 				ia := &Term{Op: "indexaddr", Args: []*Term{addr, intConst(i)}}
@@ -700,7 +779,32 @@ func (s *state) load(addr *Term, typ types.Type) *Term {
 	if s.fresh[key] {
 		return constTerm(nil, typ)
 	}
+	// a component (field, constant index) of a local variable that is still as it was allocated and was never written
+	// through a computed index: the zero value
+	if root, ok := freshRoot(addr); ok && s.fresh[root.String()] && !s.dirty[root.String()] {
+		return constTerm(nil, typ)
+	}
 	return &Term{Op: "load", Args: []*Term{addr}, Aux: s.epochOf(addr), Type: typ}
+}
+
+// freshRoot: the local variable addr is a component of, through fields and constant indices only.
+func freshRoot(addr *Term) (*Term, bool) {
+	t := addr
+	for {
+		switch t.Op {
+		case "fieldaddr":
+			t = t.Args[0]
+		case "indexaddr":
+			if _, isConst := t.Args[1].IsConst(); !isConst {
+				return nil, false
+			}
+			t = t.Args[0]
+		case "alloc":
+			return t, t != addr
+		default:
+			return nil, false
+		}
+	}
 }
 
 func fieldOf(v *Term, f *types.Var) *Term {
@@ -858,6 +962,12 @@ func (se *symExec) eval(st *state, fr *frame, v ssa.Value, pristine bool) *Term 
 		}
 	case *ssa.BinOp:
 		x, y := val(in.X), val(in.Y)
+		if !pristine && (in.Op == token.QUO || in.Op == token.REM) && isIntegerType(in.Type()) {
+			if _, isK := y.IsConst(); !isK {
+				// an integer division by a non-constant: recorded, so that a rule can ask what the path knows about the divisor
+				st.effects = append(st.effects, Effect{Kind: "div", Instr: in, Fn: fr.fn, Args: []*Term{y}, Depth: fr.depth, NAtoms: len(st.atoms)})
+			}
+		}
 		if cx, ok := x.IsConst(); ok {
 			if cy, ok := y.IsConst(); ok {
 				if r, ok := foldBin(in.Op, cx, cy, in.Type()); ok {
@@ -891,6 +1001,12 @@ func (se *symExec) eval(st *state, fr *frame, v ssa.Value, pristine bool) *Term 
 		// between an aggregate and a named type with the same representation ([2]byte <-> playedNote): the same value
 		if x := val(in.X); x.Op == "array" || x.Op == "struct" {
 			return x
+		}
+		// a constant converted to a named type with the same representation (doubleAction(1)): the same constant
+		if x := val(in.X); x.Op == "const" && x.Cval != nil {
+			if _, isBasic := in.Type().Underlying().(*types.Basic); isBasic {
+				return constTerm(x.Cval, in.Type())
+			}
 		}
 		return &Term{Op: "convert", Args: []*Term{val(in.X)}, Type: in.Type()}
 	case *ssa.MakeInterface:
@@ -1125,11 +1241,11 @@ func (se *symExec) shouldInline(st *state, callee *ssa.Function, depth int) bool
 	if !se.cfg.Prog.OwnedFunc(callee) {
 		return false
 	}
-	if se.cfg.NoInline[callee] {
+	if se.cfg.NoInline[callee] || callee.Origin() != nil && se.cfg.NoInline[callee.Origin()] {
 		return false
 	}
-	if se.cfg.OnlyInline != nil && !se.cfg.OnlyInline[callee] {
-		return false
+	if se.cfg.OnlyInline != nil && !se.cfg.OnlyInline[callee] && !(callee.Origin() != nil && se.cfg.OnlyInline[callee.Origin()]) {
+		return false // (an instantiation of a generic helper counts as that helper)
 	}
 	if depth >= se.cfg.MaxDepth {
 		return false
@@ -1206,6 +1322,12 @@ func (se *symExec) call(st *state, fr *frame, in *ssa.Call) bool {
 			bindings = append(bindings, se.val(st, fr, x))
 		}
 	}
+	if se.cfg.CallHook != nil && callee != nil {
+		if r := se.cfg.CallHook(callee, args, st.load); r != nil {
+			fr.vals[in] = r
+			return false
+		}
+	}
 	depth := fr.depth
 	transparent := callee != nil && (strings.HasSuffix(callee.Name(), "$bound") || strings.HasSuffix(callee.Name(), "$thunk") || (callee.Synthetic != "" && strings.Contains(callee.Synthetic, "wrapper")))
 	if se.shouldInline(st, callee, depth) && len(callee.Params) == len(args) && len(callee.FreeVars) == len(bindings) {
@@ -1244,6 +1366,7 @@ func (se *symExec) call(st *state, fr *frame, in *ssa.Call) bool {
 	switch {
 	case callee != nil && !se.cfg.Prog.OwnedFunc(callee), c.IsInvoke():
 		for _, a := range args {
+			a = a.StripConv() // a pointer handed over inside an interface value (Unmarshal(data, &cfg)) is still that pointer
 			switch a.Op {
 			case "alloc", "fieldaddr", "indexaddr", "global":
 				st.killUnder(a)
@@ -1621,6 +1744,13 @@ func (se *symExec) collapsible(b *ssa.BasicBlock) *collapseInfo {
 					}
 				}
 				if !allConst {
+					return ci
+				}
+			}
+			// a classification result (a named integer type: an enum of zones, kinds, states) stands for the conditions it
+			// was computed from: keep the paths apart
+			if n, isNamed := phi.Type().(*types.Named); isNamed {
+				if b, isB := n.Underlying().(*types.Basic); isB && b.Info()&types.IsInteger != 0 {
 					return ci
 				}
 			}
